@@ -10,6 +10,9 @@ import (
 	"bytes"
 	"errors"
 	"io"
+	"regexp"
+	"strconv"
+	"strings"
 
 	"verif/harness/absval"
 
@@ -48,6 +51,20 @@ const (
 	dSenLine  = "[1 // c\n 2]"
 )
 
+// Documents for the position bookkeeping of the reader variants (the read buffer of every front-end is
+// 4096 bytes) and for Reuse=true with different member names at the same nesting positions.
+var (
+	dBig       = "[\n\"" + strings.Repeat("a", 4200) + "\",\n{\"k\":\"" + strings.Repeat("b", 200) + "\"},\n7]" // valid, 2 buffers, 4 lines
+	dLateBad1  = "[\"" + strings.Repeat("a", 4200) + "\", 1, }"                                                   // rejected behind the first buffer, line 1
+	dLateBad3  = "[\"" + strings.Repeat("a", 4200) + "\",\n1,\n  }"                                               // rejected behind the first buffer, line 3
+	dLine1Bad  = `[1, }`                                                                                         // rejected on line 1
+	dLine3Bad  = "[1,\n 2,\n   }]"                                                                               // rejected on line 3
+	dReuse2    = `{"x":[1.5],"b":{"y":"z"},"d":{"r":{"s":2}},"f":[{"h":[]}]}`                                    // other members than dReuse at the same positions
+	dReuseMany = `{"a":1,"b":{"c":2}} {"x":{"y":1},"b":{"z":3}} {"b":{}}`
+)
+
+var atPos = regexp.MustCompile(` at (\d+):(\d+)$`)
+
 func parseRes(v any, err error, sink *[]any) map[string]any {
 	res := map[string]any{"c": "ok", "l": 0, "col": 0}
 	if err != nil {
@@ -60,6 +77,10 @@ func parseRes(v any, err error, sink *[]any) map[string]any {
 			res["c"], res["l"], res["col"] = "perr", ge.Line, ge.Column
 		default:
 			res["c"] = "err"
+			if m := atPos.FindStringSubmatch(err.Error()); m != nil { // position is compared, the text is not
+				res["l"], _ = strconv.Atoi(m[1])
+				res["col"], _ = strconv.Atoi(m[2])
+			}
 		}
 	}
 	res["v"] = held(v, err, sink)
